@@ -528,5 +528,624 @@ Section ProgE.
       exfalso. apply Hne. rewrite (cur_line_onprog s3 Hon3).
       destruct HC3 as (_ & _ & _ & C4'). rewrite C4', <- Elz. exact Ht1.
     Qed.
+
+    (* the scan passes over tokens that are neither ELSE nor ":" *)
+    Lemma scan_skip : forall d s, GoodS s ->
+      (forall q, loc_idx (loc s) <= q < loc_idx (loc s) + d -> exists t, nth_error (cur_line s) q = Some t /\ plainT t = true) ->
+      ScanAt (mkloc (loc_line (loc s)) (loc_idx (loc s) + d)) -> ScanOK s.
+    Proof.
+      induction d as [|d IH]; intros s Hg Hq Hat.
+      - apply (Hat s Hg). rewrite Nat.add_0_r. destruct (loc s); reflexivity.
+      - intros k. destruct k as [|k]; [exact I|]. cbn [repeat_m]. unfold scan_body at 1. rewrite bind_assoc_t, Safety.bind_run.
+        destruct (next_token_cases s) as [[p Hp] | [Hlt Hn]]; [rewrite Hp; exact I|]. rewrite Hn.
+        destruct (Hq (loc_idx (loc s)) ltac:(lia)) as (t & Ht & Hp). rewrite Ht.
+        assert (Hg' : GoodS (advd s)).
+        { destruct Hg as (Hon & Hc & Hfn & Hfr & Htb).
+          split; [destruct s; exact Hon|]. split; [apply (caps_inv_ext s); try (destruct s; reflexivity); exact Hc|].
+          split; [destruct s; exact Hfn|]. split; [destruct s; exact Hfr|].
+          apply (TBs_advd s t Ht); [destruct t; try reflexivity; discriminate Hp | exact Hon | exact Htb]. }
+        assert (Hgo : match repeat_m k (scan_body rec) tt (advd s) with
+                      | (Ok _, s') => functions s' = [] /\ FramesL s' /\ Land (loc s')
+                      | (Err e _, _) => benign e
+                      | _ => True
+                      end).
+        { apply (IH (advd s) Hg').
+          - intros q Hq'. replace (cur_line (advd s)) with (cur_line s) by (destruct s as [? ? ? [? ?] ? ? ? ? ? ? ? ? ? ? ? ? ? ? ?]; reflexivity).
+            apply Hq. destruct s as [? ? ? [? ?] ? ? ? ? ? ? ? ? ? ? ? ? ? ? ?]; cbn in *; lia.
+          - replace (mkloc (loc_line (loc (advd s))) (loc_idx (loc (advd s)) + d))
+              with (mkloc (loc_line (loc s)) (loc_idx (loc s) + S d)); [exact Hat|].
+            destruct s as [? ? ? [? ?] ? ? ? ? ? ? ? ? ? ? ? ? ? ? ?]; cbn. f_equal. lia. }
+        destruct t; try discriminate Hp; rewrite Safety.bind_ret; exact Hgo.
+    Qed.
+
+    Lemma scan_range s sa sa' : GoodS s -> loc s = loc sa -> onprog sa -> PL plainT sa sa' -> ScanAt (loc sa') -> ScanOK s.
+    Proof.
+      intros Hg El Hona (P1 & P2 & P3 & P4 & P5) Hat.
+      apply (scan_skip (loc_idx (loc sa') - loc_idx (loc sa)) s Hg).
+      - intros q Hq. rewrite El in Hq. destruct (P5 q ltac:(lia)) as (t & Ht & Hp). exists t. split; [|exact Hp].
+        rewrite (cur_line_onprog s (proj1 Hg)), El.
+        replace (toks_at (loc sa)) with (line_of sa); [exact Ht|].
+        unfold line_of, toks_at. destruct Hona as (O1 & _ & O3). rewrite O1, O3. reflexivity.
+      - rewrite El. replace (mkloc (loc_line (loc sa)) (loc_idx (loc sa) + (loc_idx (loc sa') - loc_idx (loc sa)))) with (loc sa'); [exact Hat|].
+        destruct (loc sa') as [l' i'], (loc sa) as [l0 i0]. cbn in *. subst l'. f_equal. lia.
+    Qed.
+
+    (* a ":" ends the scan: the rest of the line is discarded *)
+    Lemma scan_colon s : GoodS s -> nth_error (cur_line s) (loc_idx (loc s)) = Some TColon -> ScanOK s.
+    Proof.
+      intros (Hon & Hc & Hfn & Hfr & Htb) Ht k.
+      destruct k as [|k]; [exact I|]. cbn [repeat_m]. unfold scan_body at 1. rewrite bind_assoc_t, Safety.bind_run.
+      destruct (next_token_cases s) as [[p Hp] | [Hlt Hn]]; [rewrite Hp; exact I|]. rewrite Hn, Ht.
+      rewrite bind_assoc_t, Safety.bind_run. unfold discard_remaining_tokens. rewrite Safety.bind_run.
+      assert (Ect : cur_tokens (advd s) = (Ok (cur_line s), advd s)).
+      { unfold cur_tokens, tokens_for_line. rewrite bind_get. unfold cur_line, line_there in *.
+        replace (loc_line (loc (advd s))) with (loc_line (loc s)) by (destruct s as [? ? ? [? ?] ? ? ? ? ? ? ? ? ? ? ? ? ? ? ?]; reflexivity).
+        replace (st_toks (advd s)) with (st_toks s) by (destruct s; reflexivity).
+        replace (immediate (advd s)) with (immediate s) by (destruct s; reflexivity).
+        destruct (loc_line (loc s)) as [k0|]; [|reflexivity].
+        destruct (toks_get k0 (st_toks s)) eqn:Etk; [reflexivity | exfalso; exact (Hlt k0 eq_refl Etk)]. }
+      rewrite Ect. unfold modify at 1. cbv iota beta. rewrite Safety.bind_ret. cbv iota.
+      set (sd := set_loc _ (advd s)).
+      destruct k as [|k]; [exact I|]. cbn [repeat_m]. unfold scan_body at 1. rewrite bind_assoc_t, Safety.bind_run.
+      destruct (next_token_cases sd) as [[p Hp] | [Hlt' Hn']]; [rewrite Hp; exact I|]. rewrite Hn'.
+      assert (Hnone : nth_error (cur_line sd) (loc_idx (loc sd)) = None).
+      { unfold sd. destruct s as [? ? ? [? ?] ? ? ? ? ? ? ? ? ? ? ? ? ? ? ?]. cbn. apply nth_error_None. apply le_n. }
+      rewrite Hnone, Safety.bind_ret. cbv iota. unfold ret.
+      split; [unfold sd; destruct s; exact Hfn|]. split; [unfold sd; destruct s; exact Hfr|].
+      replace (loc (bumped sd)) with (mkloc (loc_line (loc s)) (length (cur_line s)))
+        by (unfold sd; destruct s as [? ? ? [? ?] ? ? ? ? ? ? ? ? ? ? ? ? ? ? ?]; reflexivity).
+      apply (Land_end s Hon Hfn Hlt).
+    Qed.
+
+    Lemma ScanAt_loc l l' : l = l' -> ScanAt l -> ScanAt l'.
+    Proof. intros ->. exact (fun H => H). Qed.
+
+    Lemma PL_bumped sa : PL plainT sa (bumped sa).
+    Proof. apply PL_same; destruct sa; reflexivity. Qed.
+
+    (* the ELSE frame of an IF: what stands behind the THEN clause *)
+    Lemma frame_after f n sa3 acc3 sa' acc' :
+      onprog sa3 -> functions sa3 = [] ->
+      (e <-- lift (accept_next_token TElse) ;; if e then an_statement_or_goto (analyze_statement f n) else aret tt) (sa3, acc3)
+        = (Ok tt, (sa', acc')) ->
+      After (loc sa') -> ScanAt (loc sa') -> After (loc sa3) /\ ScanAt (loc sa3).
+    Proof.
+      intros Hon Hfn E Haft Hat. unfold abind at 1 in E. unfold lift at 1 in E. cbn [fst snd] in E.
+      destruct (keepM (accept_next_token TElse) sa3 (rfn_accept TElse) Hon Hfn) as [Hon4 Hfn4].
+      unfold accept_next_token in *. rewrite Safety.bind_run in *.
+      destruct (peek_cases sa3) as [[p Hp] | [Hp Hlt]]; rewrite Hp in *; [discriminate E|].
+      destruct (nth_error (cur_line sa3) (loc_idx (loc sa3))) as [t|] eqn:Et.
+      - destruct (token_eqb t TElse) eqn:Eq.
+        + assert (t = TElse) by (destruct t; try discriminate Eq; reflexivity). subst t.
+          unfold advance in *. rewrite bind_modify in *. unfold ret at 1 in E. unfold ret at 1 in Hon4. unfold ret at 1 in Hfn4.
+          cbn [fst snd] in *.
+          set (sa4 := set_loc _ (bumped sa3)) in *.
+          assert (Ht : nth_error (toks_at (loc sa3)) (loc_idx (loc sa3)) = Some TElse) by (rewrite <- (cur_line_onprog sa3 Hon); exact Et).
+          assert (Hl4 : loc sa4 = mkloc (loc_line (loc sa3)) (S (loc_idx (loc sa3)))) by (unfold sa4; destruct sa3; reflexivity).
+          split; [exact (After_else (loc sa3) sa4 acc3 f n sa' acc' Ht Hon4 Hfn4 Hl4 E Haft)
+                 | exact (scan_else (loc sa3) sa4 acc3 f n sa' acc' Ht Hon4 Hfn4 Hl4 E Haft)].
+        + unfold ret, aret in E. injection E as <- <-.
+          replace (loc (bumped sa3)) with (loc sa3) in * by (destruct sa3; reflexivity). split; assumption.
+      - unfold ret, aret in E. injection E as <- <-.
+        replace (loc (bumped sa3)) with (loc sa3) in * by (destruct sa3; reflexivity). split; assumption.
+    Qed.
+
+    (* the scan follows the checker over one accepted statement *)
+    Lemma scan_stmt : forall f2 n2 sa acc sa' acc', onprog sa -> functions sa = [] ->
+      analyze_statement f2 n2 (sa, acc) = (Ok tt, (sa', acc')) -> After (loc sa') -> ScanAt (loc sa') -> ScanAt (loc sa).
+    Proof.
+      induction f2 as [|f2 IH]; intros n2 sa acc sa' acc' Hon Hfn Ea Haft Hat; cbn [analyze_statement] in Ea; [discriminate Ea|].
+      destruct (Nat.eqb n2 max_nesting); [discriminate Ea|].
+      rewrite an_statement_body_dispatch in Ea. unfold abind at 1 in Ea. unfold lift at 1 in Ea. cbn [fst snd] in Ea.
+      destruct (keepM next_token sa rfn_next_token Hon Hfn) as [Hon1 Hfn1].
+      destruct (next_token_cases sa) as [[p Hp] | [Hlt Hn]]; [rewrite Hp in Ea; discriminate Ea|].
+      rewrite Hn in *.
+      destruct (nth_error (cur_line sa) (loc_idx (loc sa))) as [t|] eqn:Et; cbn [fst snd] in *.
+      2:{ (* end of the line *) cbn [adispatch] in Ea. unfold aret in Ea. injection Ea as <- <-.
+          apply (ScanAt_loc (loc (bumped sa))); [destruct sa; reflexivity | exact Hat]. }
+      assert (Hcl : clean2_tok t = true) by (apply (clean2_at sa _ t Hon Et)).
+      assert (Hl1 : loc (advd sa) = mkloc (loc_line (loc sa)) (S (loc_idx (loc sa)))) by (destruct sa; reflexivity).
+      assert (Hstep : plainT t = true -> PL plainT sa (advd sa)).
+      { intros Hp. apply (PL_step plainT sa t); [|exact Hp].
+        replace (line_of sa) with (cur_line sa) by (unfold line_of, cur_line; reflexivity). exact Et. }
+      destruct (plain_head (Some t)) eqn:Hph.
+      - (* a statement that consumes neither ELSE nor ":" *)
+        pose proof (aplp_dispatch f2 (S n2) (analyze_statement f2 (S n2)) (Some t) Hph (advd sa, acc) tt (sa', acc') Ea) as Hpl.
+        cbn [fst] in Hpl.
+        intros s Hg El. apply (scan_range s sa sa' Hg El Hon); [|exact Hat].
+        eapply PL_trans; [apply Hstep; destruct t; try reflexivity; discriminate Hph | exact Hpl].
+      - destruct t; try discriminate Hph; try discriminate Hcl; cbn [adispatch] in Ea; try discriminate Ea.
+        + (* ":" *) intros s Hg El. apply (scan_colon s Hg).
+          rewrite (cur_line_onprog s (proj1 Hg)), El, <- (cur_line_onprog sa Hon). exact Et.
+        + (* IF *)
+          unfold an_if in Ea. unfold abind at 1 in Ea.
+          pose proof (apl_analyze_expression plainT plainT_sub plainT_resp f2 (S n2) (advd sa, acc)) as Hx.
+          destruct (keepA (aexpr f2 (S n2)) (advd sa) acc (fn_analyze_expression f2 (S n2)) Hon1 Hfn1) as [Hon2 Hfn2].
+          unfold aexpr in *.
+          destruct (analyze_expression f2 (S n2) (advd sa, acc)) as [[ty|? ?|?| |] [sa2 acc2]]; try discriminate Ea.
+          specialize (Hx ty (sa2, acc2) eq_refl). cbn [fst snd] in *.
+          unfold abind at 1 in Ea. unfold lift at 1 in Ea. cbn [fst snd] in Ea.
+          pose proof (mpl_expect plainT plainT_resp TThen eq_refl sa2) as Hx2.
+          destruct (keepM (expect_next_token TThen) sa2 (rfn_expect TThen) Hon2 Hfn2) as [Hon3 Hfn3].
+          destruct (expect_next_token TThen sa2) as [[[]|? ?|?| |] sa3]; try discriminate Ea.
+          specialize (Hx2 tt sa3 eq_refl). cbn [fst snd] in *.
+          (* the THEN clause *)
+          unfold abind at 1 in Ea.
+          destruct (keepA (an_statement_or_goto (analyze_statement f2 (S n2))) sa3 acc2
+                      (fn_statement_or_goto _ (fn_analyze_statement f2 (S n2))) Hon3 Hfn3) as [Hon4 Hfn4].
+          destruct (an_statement_or_goto (analyze_statement f2 (S n2)) (sa3, acc2)) as [[[]|? ?|?| |] [sa4 acc4]] eqn:Earm;
+            try discriminate Ea. cbn [fst snd] in *.
+          destruct (frame_after f2 (S n2) sa4 acc4 sa' acc' Hon4 Hfn4 Ea Haft Hat) as [Haft4 Hat4].
+          (* scanning over the clause *)
+          assert (Hat3 : ScanAt (loc sa3)).
+          { unfold an_statement_or_goto in Earm. unfold abind at 1 in Earm. unfold lift at 1 in Earm. cbn [fst snd] in Earm.
+            destruct (peek_cases sa3) as [[p Hp3] | [Hp3 Hlt3]]; rewrite Hp3 in Earm; [discriminate Earm|]. cbn [fst snd] in Earm.
+            assert (Honb : onprog (bumped sa3)) by (destruct sa3; exact Hon3).
+            assert (Hfnb : functions (bumped sa3) = []) by (destruct sa3; exact Hfn3).
+            assert (Hvia : (exists acc0, analyze_statement f2 (S n2) (bumped sa3, acc0) = (Ok tt, (sa4, acc4))) -> ScanAt (loc sa3)).
+            { intros (acc0 & E0). apply (ScanAt_loc (loc (bumped sa3))); [destruct sa3; reflexivity|].
+              exact (IH (S n2) (bumped sa3) acc0 sa4 acc4 Honb Hfnb E0 Haft4 Hat4). }
+            destruct (nth_error (cur_line sa3) (loc_idx (loc sa3))) as [t1|]; [|apply Hvia; eexists; exact Earm].
+            destruct t1; try (apply Hvia; eexists; exact Earm).
+            (* a line number *)
+            pose proof (aplp_goto_or_gosub (bumped sa3, acc2) tt (sa4, acc4) Earm) as Hplg. cbn [fst] in Hplg.
+            intros s Hg El. apply (scan_range s sa3 sa4 Hg El Hon3); [|exact Hat4].
+            eapply PL_trans; [apply PL_bumped | exact Hplg]. }
+          intros s Hg El. apply (scan_range s sa sa3 Hg El Hon); [|exact Hat3].
+          eapply PL_trans; [apply Hstep; reflexivity|]. eapply PL_trans; [exact Hx | exact Hx2].
+    Qed.
+
+    (* ... over the rest of an accepted line *)
+    Lemma scan_walk : forall stmts sa acc m st', onprog sa -> functions sa = [] ->
+      walk_line fa stmts m (sa, acc) = (Ok None, st') -> ScanAt (loc sa).
+    Proof.
+      induction stmts as [|k IH]; intros sa acc m st' Hon Hfn Hw; [discriminate Hw|].
+      assert (Hacc : AccAt (loc sa)).
+      { exists sa, acc. split; [exact Hon|]. split; [exact Hfn|]. split; [reflexivity|]. exists (S k), m, st'. exact Hw. }
+      cbn [walk_line fst snd] in Hw. unfold has_next_token in Hw. rewrite Safety.bind_run in Hw.
+      destruct (peek_cases sa) as [[p Hp] | [Hp Hlt]]; rewrite Hp in Hw; [discriminate Hw|].
+      destruct (nth_error (cur_line sa) (loc_idx (loc sa))) as [t|] eqn:Et.
+      - unfold ret in Hw.
+        assert (Honb : onprog (bumped sa)) by (destruct sa; exact Hon).
+        assert (Hfnb : functions (bumped sa) = []) by (destruct sa; exact Hfn).
+        destruct (keepA (analyze_statement fa 0) (bumped sa) acc (fn_analyze_statement fa 0) Honb Hfnb) as [Hon1 Hfn1].
+        destruct (analyze_statement fa 0 (bumped sa, acc)) as [[[]|e l|p| |] [sa1 acc1]] eqn:Ean;
+          try discriminate Hw;
+          try (destruct (populate_error_location e l (fst (sa1, acc1))) as [l0|]; [destruct (map_location_to_source m l0) as [[? ?]|]|]; discriminate Hw).
+        cbn [fst snd] in *.
+        pose proof (IH sa1 acc1 m st' Hon1 Hfn1 Hw) as Hat1.
+        assert (Hacc1 : AccAt (loc sa1)).
+        { exists sa1, acc1. split; [exact Hon1|]. split; [exact Hfn1|]. split; [reflexivity|]. exists k, m, st'. exact Hw. }
+        apply (ScanAt_loc (loc (bumped sa))); [destruct sa; reflexivity|].
+        exact (scan_stmt fa 0 (bumped sa) acc sa1 acc1 Honb Hfnb Ean (After_acc _ Hacc1) Hat1).
+      - (* the line ends here *)
+        intros s (Hons & Hc & Hfns & Hfr & Htb) El kk.
+        destruct kk as [|kk]; [exact I|]. cbn [repeat_m]. unfold scan_body at 1. rewrite bind_assoc_t, Safety.bind_run.
+        destruct (next_token_cases s) as [[p Hp'] | [Hlt' Hn]]; [rewrite Hp'; exact I|]. rewrite Hn.
+        rewrite (cur_line_onprog s Hons), El, <- (cur_line_onprog sa Hon), Et.
+        rewrite Safety.bind_ret. cbv iota. unfold ret.
+        split; [destruct s; exact Hfns|]. split; [destruct s; exact Hfr|].
+        left. replace (loc (bumped s)) with (loc sa) by (rewrite <- El; destruct s; reflexivity). exact Hacc.
+    Qed.
+
+    Lemma scan_after l : After l -> ScanAt l.
+    Proof.
+      intros [l0 (sa & acc & Hon & Hfn & Hl & (stmts & m & st' & Hw)) | l0 sa acc f n sa' acc' Ht Hon Hfn Hl Ea Haft].
+      - rewrite <- Hl. exact (scan_walk stmts sa acc m st' Hon Hfn Hw).
+      - exact (scan_else l0 sa acc f n sa' acc' Ht Hon Hfn Hl Ea Haft).
+    Qed.
+
+    (* ---- IF ---- *)
+    Lemma ThenB_after_then s : onprog s -> loc_idx (loc s) <> 0 ->
+      nth_error (cur_line s) (Nat.pred (loc_idx (loc s))) = Some TThen -> TBs s.
+    Proof.
+      intros Hon Hnz Ht. unfold TBs, ThenB. rewrite <- (cur_line_onprog s Hon).
+      destruct (loc_idx (loc s)) as [|i] eqn:Ei; [congruence|]. cbn [Nat.pred] in Ht.
+      rewrite (firstn_S_nth _ _ _ Ht), rev_app_distr. reflexivity.
+    Qed.
+
+    Lemma tsoundE_if n1 fi f2 nestE nestA fa' na' :
+      tsoundE n1 (evaluate_if_statement fi nestE rec) (an_if f2 nestA (analyze_statement fa' na')).
+    Proof.
+      intros s sa acc sa' acc' HR Hon Hfr Htb Ea Haft Htop.
+      rewrite (if_unfold fi nestE rec). unfold an_if in Ea.
+      (* the condition *)
+      unfold abind at 1 in Ea.
+      pose proof (expression_check_sound2 fi f2 nestE nestA s sa acc HR) as Hx. unfold aexpr in Ea.
+      pose proof (onprog_of_R s sa HR Hon) as Hona.
+      destruct (keepA (analyze_expression f2 nestA) sa acc (fn_analyze_expression f2 nestA) Hona (proj2 (proj2 (proj2 HR)))) as [Hona1 Hfna1].
+      destruct (analyze_expression f2 nestA (sa, acc)) as [[ty|? ?|?| |] [sa1 acc1]]; try discriminate Ea. cbn [fst snd] in *.
+      rewrite Safety.bind_run. unfold expr.
+      pose proof (KS_evaluate_expression fi nestE s (proj1 (proj2 (proj2 HR)))) as Kx.
+      pose proof (onprog_step ptoks pkeys (evaluate_expression fi nestE) s (keeps_evaluate_expression st_toks rf_st_toks fi nestE)
+                    (keeps_evaluate_expression st_keys rf_st_keys fi nestE) (imm_evaluate_expression fi nestE) Hon) as Hon1.
+      destruct (evaluate_expression fi nestE s) as [[c|e l|p| |] s1]; cbn [snd] in *; try exact Hx; try exact I.
+      destruct Hx as [_ HR1]. destruct Kx as (_ & Ks1 & Kl1).
+      assert (Hfr1 : FramesL s1) by (unfold FramesL; rewrite Ks1, Kl1; exact Hfr).
+      (* THEN *)
+      unfold abind at 1 in Ea. unfold lift at 1 in Ea. cbn [fst snd] in Ea.
+      destruct (cp_expect TThen s1 sa1 (proj1 HR1)) as (E2 & HC2 & K1 & K2).
+      pose proof (onprog_step ptoks pkeys (expect_next_token TThen) s1 (keeps_expect st_toks rf_st_toks TThen)
+                    (keeps_expect st_keys rf_st_keys TThen) (imm_expect TThen) Hon1) as Hon2.
+      destruct (keepM (expect_next_token TThen) sa1 (rfn_expect TThen) Hona1 Hfna1) as [Hona2 Hfna2].
+      rewrite Safety.bind_run.
+      assert (Hthen : forall s2, expect_next_token TThen s1 = (Ok tt, s2) -> TBs s2).
+      { intros s2 E. unfold expect_next_token, next_unwrapped_token in E. rewrite !Safety.bind_run in E.
+        destruct (next_token_cases s1) as [[p Hp] | [Hlt Hn]]; [rewrite Hp in E; discriminate E|]. rewrite Hn in E.
+        destruct (nth_error (cur_line s1) (loc_idx (loc s1))) as [t|] eqn:Et; [|rewrite bind_get in E; discriminate E].
+        unfold ret at 1 in E. cbv iota beta in E. destruct (token_eqb t TThen) eqn:Eq; [|discriminate E].
+        unfold ret in E. injection E as <-. assert (t = TThen) by (destruct t; try discriminate Eq; reflexivity). subst t.
+        apply (ThenB_after_then (advd s1)); [destruct s1; exact Hon1 | destruct s1 as [? ? ? [? ?] ? ? ? ? ? ? ? ? ? ? ? ? ? ? ?]; discriminate|].
+        destruct s1 as [? ? ? [? ?] ? ? ? ? ? ? ? ? ? ? ? ? ? ? ?]. exact Et. }
+      destruct (expect_next_token TThen s1) as [r2 s2], (expect_next_token TThen sa1) as [r2' sa2]. cbn [fst snd] in *. subst r2'.
+      destruct r2 as [[]|e l|p| |]; try discriminate Ea; try exact I.
+      assert (HR2 : R s2 sa2) by (eapply R_same_rt; eassumption).
+      assert (Hfr2 : FramesL s2) by (destruct K1 as (S1 & S2 & _); unfold FramesL; rewrite S1, S2; exact Hfr1).
+      pose proof (Hthen s2 eq_refl) as Htb2.
+      (* the clause and what stands behind it *)
+      unfold abind at 1 in Ea.
+      destruct (keepA (an_statement_or_goto (analyze_statement fa' na')) sa2 acc1
+                  (fn_statement_or_goto _ (fn_analyze_statement fa' na')) Hona2 Hfna2) as [Hona3 Hfna3].
+      destruct (an_statement_or_goto (analyze_statement fa' na') (sa2, acc1)) as [[[]|? ?|?| |] [sa3 acc3]] eqn:E3; try discriminate Ea.
+      cbn [fst snd] in *.
+      destruct (frame_after fa' na' sa3 acc3 sa' acc' Hona3 Hfna3 Ea Haft (scan_after _ Haft)) as [Haft3 Hat3].
+      destruct (to_bool c).
+      - (* the THEN clause is executed *)
+        pose proof (tsoundE_stmt_or_goto fa' na' s2 sa2 acc1 sa3 acc3 HR2 Hon2 Hfr2 (fun _ => Htb2) E3 Haft3
+                      (fun H => False_ind _ (Hn1r H))) as H3.
+        pose proof (onprog_stmt_or_goto s2 Hon2) as Hon3.
+        rewrite Safety.bind_run.
+        destruct (statement_or_goto_line_number rec s2) as [[[]|e l|p| |] s3]; cbn [snd] in *; try exact H3; try exact I.
+        destruct H3 as (F3 & Fr3 & Pos3). fold probe.
+        assert (Hpos : C s3 sa3 /\ functions sa3 = [] \/ Land (loc s3)).
+        { destruct Pos3 as [HC|HL]; [left; split; assumption | right; exact HL]. }
+        pose proof (probe_sound s3 sa3 Hon3 F3 Fr3 Hpos) as H4.
+        destruct (probe s3) as [[[]|e l|p| |] s4]; try contradiction; try exact I.
+        destruct H4 as (F4 & Fr4 & Hon4 & Pos4).
+        split; [exact F4|]. split; [exact Fr4|].
+        destruct Pos4 as [(HC4 & HC3 & Hne) | HL]; [left | right; exact HL].
+        (* the checker saw no ELSE either *)
+        unfold abind at 1 in Ea. unfold lift at 1 in Ea. cbn [fst snd] in Ea.
+        unfold accept_next_token in Ea. rewrite Safety.bind_run in Ea.
+        destruct (peek_cases sa3) as [[p Hp] | [Hp _]]; rewrite Hp in Ea; [discriminate Ea|].
+        assert (Etok : nth_error (cur_line sa3) (loc_idx (loc sa3)) = nth_error (cur_line s3) (loc_idx (loc s3))).
+        { rewrite (cur_line_onprog sa3 Hona3), (cur_line_onprog s3 Hon3). destruct HC3 as (_ & _ & _ & C4). rewrite C4. reflexivity. }
+        rewrite Etok in Ea.
+        destruct (nth_error (cur_line s3) (loc_idx (loc s3))) as [t|].
+        + destruct (token_eqb t TElse) eqn:Eq.
+          * exfalso. apply Hne. destruct t; try discriminate Eq; reflexivity.
+          * unfold ret, aret in Ea. injection Ea as <- _. exact HC4.
+        + unfold ret, aret in Ea. injection Ea as <- _. exact HC4.
+      - (* the condition is false: the scan *)
+        assert (Hg2 : GoodS s2).
+        { split; [exact Hon2|]. split; [apply HR2|]. split; [apply HR2|]. split; [exact Hfr2 | exact Htb2]. }
+        assert (Hat2 : ScanAt (loc sa2)).
+        { unfold an_statement_or_goto in E3. unfold abind at 1 in E3. unfold lift at 1 in E3. cbn [fst snd] in E3.
+          destruct (peek_cases sa2) as [[p Hp3] | [Hp3 Hlt3]]; rewrite Hp3 in E3; [discriminate E3|]. cbn [fst snd] in E3.
+          assert (Honb : onprog (bumped sa2)) by (destruct sa2; exact Hona2).
+          assert (Hfnb : functions (bumped sa2) = []) by (destruct sa2; exact Hfna2).
+          assert (Hvia : (exists acc0, analyze_statement fa' na' (bumped sa2, acc0) = (Ok tt, (sa3, acc3))) -> ScanAt (loc sa2)).
+          { intros (acc0 & E0). apply (ScanAt_loc (loc (bumped sa2))); [destruct sa2; reflexivity|].
+            exact (scan_stmt fa' na' (bumped sa2) acc0 sa3 acc3 Honb Hfnb E0 Haft3 Hat3). }
+          destruct (nth_error (cur_line sa2) (loc_idx (loc sa2))) as [t1|]; [|apply Hvia; eexists; exact E3].
+          destruct t1; try (apply Hvia; eexists; exact E3).
+          pose proof (aplp_goto_or_gosub (bumped sa2, acc1) tt (sa3, acc3) E3) as Hplg. cbn [fst] in Hplg.
+          intros s0 Hg El. apply (scan_range s0 sa2 sa3 Hg El Hona2); [|exact Hat3].
+          eapply PL_trans; [apply PL_bumped | exact Hplg]. }
+        pose proof (Hat2 s2 Hg2 (proj2 (proj2 (proj2 (proj1 HR2)))) fi) as Hsc.
+        destruct (repeat_m fi (scan_body rec) tt s2) as [[[]|e l|p| |] s3]; try exact Hsc; try exact I.
+        destruct Hsc as (A1 & A2 & A3). split; [exact A1|]. split; [exact A2 | right; exact A3].
+    Qed.
   End Level.
+
+  (* ---- the dispatcher, every statement ---- *)
+  Lemma tsoundE_body n1 fi f2 nestE nestA rec fa' na' :
+    (forall f n, tsoundE (S n1) rec (analyze_statement f n)) ->
+    mrel (keeps st_toks) rec -> mrel (keeps st_keys) rec -> mrel IM rec -> mrel (inv_rel caps_inv) rec ->
+    tsoundE n1 (evaluate_statement_body fi nestE rec) (an_statement_body f2 nestA (analyze_statement fa' na')).
+  Proof.
+    intros Hrec Hk1 Hk2 Him Hcaps s sa acc sa' acc' HR Hon Hfr Htb Ea Haft Htop.
+    rewrite body_split. rewrite an_statement_body_dispatch in Ea. rewrite Safety.bind_run.
+    destruct (trace_quiet s) as (s0 & Et & T1 & T2 & T3 & T4 & T5 & T6 & T7 & T8 & T9). rewrite Et.
+    assert (HR0 : R s0 sa).
+    { apply (R_ext s); try assumption. apply (caps_inv_ext s); try assumption. apply HR. }
+    assert (Hon0 : onprog s0) by (destruct Hon as (O1 & O2 & O3); repeat split; congruence).
+    assert (Hfr0 : FramesL s0) by (unfold FramesL; rewrite T6, T7; exact Hfr).
+    assert (Htb0 : n1 <> 0 -> TBs s0) by (intros H; unfold TBs; rewrite T4; exact (Htb H)).
+    destruct (next_token_bothL s0 sa acc HR0 Hon0 Hfr0) as (E1 & El & HR1 & Hon1 & Hfr1).
+    unfold abind at 1 in Ea. rewrite El in Ea.
+    destruct (next_token_cases s0) as [[p Hp] | [Hl Hn]].
+    { rewrite Safety.bind_run, Hp. exact I. }
+    rewrite Safety.bind_run.
+    destruct (next_token s0) as [r s1] eqn:En0, (next_token sa) as [r' sa1]. cbn [fst snd] in *. subst r'.
+    destruct r as [t|e l|p| |]; try discriminate Ea; try exact I.
+    destruct t as [t|].
+    2:{ (* the end of the line *) cbn [edispatch adispatch] in *. unfold aret in Ea. injection Ea as <- <-. unfold ret.
+        split; [apply HR1|]. split; [exact Hfr1 | left; apply HR1]. }
+    destruct (nth_error (cur_line s0) (loc_idx (loc s0))) as [t1|] eqn:E1'; [|discriminate Hn].
+    injection Hn as Ht Hs1. subst t1 s1.
+    pose proof (clean2_at s0 _ t Hon0 E1') as Hcl.
+    assert (Htb1 : token_eqb t TColon = false -> n1 <> 0 -> TBs (advd s0)).
+    { intros Hc Hn1. apply (TBs_advd s0 t E1' Hc Hon0 (Htb0 Hn1)). }
+    destruct (straight_head (Some t)) eqn:Hst.
+    - destruct t; try discriminate Hst;
+        try (destruct (straight_frames fi nestE rec _ Hst ltac:(discriminate)) as (F1 & _);
+             exact (tsoundE_of_sound n1 _ _ (straight_statement_sound2 fi f2 nestE nestA rec (analyze_statement fa' na') _ Hst) F1
+                      (advd s0) sa1 acc sa' acc' HR1 Hon1 Hfr1 (Htb1 eq_refl) Ea Haft Htop)).
+      + (* ":" *) cbn [edispatch adispatch] in *. unfold aret in Ea. injection Ea as <- <-. unfold ret.
+        split; [apply HR1|]. split; [exact Hfr1 | left; apply HR1].
+      + (* FOR *) exact (tsoundE_for n1 fi f2 nestE nestA (advd s0) sa1 acc sa' acc' HR1 Hon1 Hfr1 (Htb1 eq_refl) Ea Haft Htop).
+    - destruct t; try discriminate Hst; try discriminate Hcl; cbn [edispatch adispatch] in *; try discriminate Ea.
+      + exact (tsoundE_goto n1 (advd s0) sa1 acc sa' acc' HR1 Hon1 Hfr1 (Htb1 eq_refl) Ea Haft Htop).
+      + exact (tsoundE_gosub n1 (advd s0) sa1 acc sa' acc' HR1 Hon1 Hfr1 (Htb1 eq_refl) Ea Haft Htop).
+      + exact (tsoundE_return n1 (advd s0) sa1 acc sa' acc' HR1 Hon1 Hfr1 (Htb1 eq_refl) Ea Haft Htop).
+      + exact (tsoundE_if rec (S n1) ltac:(discriminate) Hrec Hk1 Hk2 Him n1 fi f2 nestE nestA fa' na'
+                 (advd s0) sa1 acc sa' acc' HR1 Hon1 Hfr1 (Htb1 eq_refl) Ea Haft Htop).
+      + exact (tsoundE_end n1 (advd s0) sa1 acc sa' acc' HR1 Hon1 Hfr1 (Htb1 eq_refl) Ea Haft Htop).
+      + exact (tsoundE_stop n1 (advd s0) sa1 acc sa' acc' HR1 Hon1 Hfr1 (Htb1 eq_refl) Ea Haft Htop).
+      + exact (tsoundE_next n1 (advd s0) sa1 acc sa' acc' HR1 Hon1 Hfr1 (Htb1 eq_refl) Ea Haft Htop).
+  Qed.
+
+  Theorem tsoundE_statement : forall fi n1 f2 n2, tsoundE n1 (evaluate_statement fi n1) (analyze_statement f2 n2).
+  Proof.
+    induction fi as [|fi IH]; intros n1 f2 n2 s sa acc sa' acc' HR Hon Hfr Htb Ea Haft Htop; [exact I|].
+    destruct f2 as [|f2]; [discriminate Ea|]. cbn [analyze_statement] in Ea. cbn [evaluate_statement].
+    destruct (Nat.eqb n2 max_nesting); [discriminate Ea|].
+    destruct (Nat.eqb n1 max_nesting); [exact I|].
+    apply (tsoundE_body n1 fi f2 (S n1) (S n2) (evaluate_statement fi (S n1)) f2 (S n2)
+             (fun f n => IH (S n1) f n)
+             (keeps_evaluate_statement st_toks rf_st_toks fi (S n1)) (keeps_evaluate_statement st_keys rf_st_keys fi (S n1))
+             (imm_evaluate_statement fi (S n1)) (caps_evaluate_statement fi (S n1)) s sa acc sa' acc' HR Hon Hfr Htb Ea Haft Htop).
+  Qed.
+
+  (* ------------------------------------------------------------------ *)
+  (* one turn, every turn *)
+  Definition InvL (s : interp) : Prop :=
+    onprog s /\ caps_inv s /\ functions s = [] /\ FramesL s /\ Land (loc s).
+
+  Lemma InvL_ext s s' : InvL s ->
+    st_toks s' = st_toks s -> st_keys s' = st_keys s -> immediate s' = immediate s -> loc s' = loc s ->
+    functions s' = functions s -> stack s' = stack s -> loops s' = loops s ->
+    variables s' = variables s -> arrays s' = arrays s -> InvL s'.
+  Proof.
+    intros ((O1 & O2 & O3) & Hc & Hf & (F1 & F2) & Ha) E1 E2 E3 E4 E5 E6 E7 E8 E9.
+    split; [repeat split; congruence|]. split; [apply (caps_inv_ext s); assumption|]. split; [congruence|].
+    split; [unfold FramesL; rewrite E6, E7; split; assumption | rewrite E4; exact Ha].
+  Qed.
+
+  Lemma tail_soundL s : onprog s -> caps_inv s -> functions s = [] -> FramesL s -> Land (loc s) ->
+    match (h2 <- has_next_token ;;
+           if h2 then ret tt
+           else n <- next_line ;; if n then ret tt else set_and_goto_immediate_line [] ;;; return_to_idle_state) s with
+    | (Ok _, s') => InvL s'
+    | (Err _ _, _) => False
+    | _ => True
+    end.
+  Proof.
+    intros Hon0 Hc0 Hf0 Hfr0 Ha0.
+    assert (HI : InvL s) by (split; [exact Hon0 | split; [exact Hc0 | split; [exact Hf0 | split; assumption]]]).
+    unfold has_next_token. rewrite bind_assoc_t, Safety.bind_run.
+    destruct (peek_cases s) as [[p Hp] | [Hp Hl]]; rewrite Hp; [exact I|].
+    assert (HIb : InvL (bumped s)) by (apply (InvL_ext s _ HI); destruct s; reflexivity).
+    rewrite Safety.bind_ret.
+    destruct (nth_error (cur_line s) (loc_idx (loc s))) as [t|]; [exact HIb|].
+    rewrite Safety.bind_run, next_line_eq.
+    destruct HIb as (Hon & Hc & Hf & Hfr & Ha).
+    assert (Hidle : InvL (set_state Idle (imm_reset [] (bumped s)))).
+    { split; [unfold imm_reset; destruct Hon as (O1 & O2 & O3); destruct (breakpoint (bumped s)); destruct s; repeat split; assumption|].
+      split; [apply (caps_set_imm [] (bumped s)) in Hc; rewrite set_imm_is_modify in Hc; cbn [snd modify] in Hc;
+              apply (caps_inv_ext (imm_reset [] (bumped s))); try reflexivity; exact Hc|].
+      split; [unfold imm_reset; destruct (breakpoint (bumped s)); destruct s; exact Hf|].
+      split.
+      - destruct Hfr as [F1 F2]. unfold imm_reset.
+        destruct (breakpoint (bumped s)); (split; [destruct s; cbn in *; first [exact F1 | constructor] | destruct s; exact F2]).
+      - left. replace (loc (set_state Idle (imm_reset [] (bumped s)))) with imm0
+          by (unfold imm_reset; destruct (breakpoint (bumped s)); destruct s; reflexivity).
+        apply (AccAt_imm0 fa ptoks pkeys (bumped s) Hon Hf). }
+    destruct (loc_line (loc (bumped s))) as [n|] eqn:El.
+    - destruct (store_after n (bumped s)) as [n'|] eqn:Ea'.
+      + unfold ret.
+        split; [destruct s; apply Hon|]. split; [apply (caps_inv_ext (bumped s)); try (destruct s; reflexivity); exact Hc|].
+        split; [destruct s; exact Hf|]. split; [destruct Hfr; split; destruct s; assumption|].
+        left. replace (loc (set_loc _ (bumped s))) with (mkloc (Some n') 0) by (destruct s; reflexivity).
+        apply G, Hkeys. unfold store_after in Ea'. destruct Hon as (_ & O2 & _). rewrite O2 in Ea'.
+        eapply keys_after_In; eassumption.
+      + rewrite set_imm_is_modify, bind_modify. unfold return_to_idle_state, modify. exact Hidle.
+    - rewrite set_imm_is_modify, bind_modify. unfold return_to_idle_state, modify. exact Hidle.
+  Qed.
+
+  Theorem turn_soundL fi s : InvL s ->
+    match run_next_statement fi s with
+    | (Ok _, s') => InvL s'
+    | (Err e _, _) => benign e
+    | _ => True
+    end.
+  Proof.
+    intros HI. unfold run_next_statement. rewrite bind_modify.
+    set (sR := set_state Running s).
+    assert (HIR : InvL sR) by (apply (InvL_ext s _ HI); destruct s; reflexivity).
+    unfold has_next_token at 1. rewrite bind_assoc_t, Safety.bind_run.
+    destruct (peek_cases sR) as [[p Hp] | [Hp Hl]]; rewrite Hp; [exact I|].
+    assert (HIb : InvL (bumped sR)) by (apply (InvL_ext sR _ HIR); destruct sR; reflexivity).
+    rewrite Safety.bind_ret.
+    assert (Htail : forall s1, onprog s1 -> caps_inv s1 -> functions s1 = [] -> FramesL s1 -> Land (loc s1) ->
+              match (h2 <- has_next_token ;;
+                     if h2 then ret tt
+                     else n <- next_line ;; if n then ret tt else set_and_goto_immediate_line [] ;;; return_to_idle_state) s1 with
+              | (Ok _, s') => InvL s'
+              | (Err e _, _) => benign e
+              | _ => True
+              end).
+    { intros s1 H1 H2 H3 H4 H5. pose proof (tail_soundL s1 H1 H2 H3 H4 H5) as H.
+      destruct ((h2 <- has_next_token ;; _) s1) as [[u|e l|p| |] s']; try exact H; try exact I. contradiction. }
+    destruct (nth_error (cur_line sR) (loc_idx (loc sR))) as [t|] eqn:Et.
+    2:{ rewrite Safety.bind_ret. destruct HIb as (A & B & C0 & D & E). apply Htail; assumption. }
+    destruct HIb as (Hon & Hc & Hf & Hfr & Hland).
+    pose proof (onprog_step ptoks pkeys (evaluate_statement fi 0) (bumped sR)
+                  (keeps_evaluate_statement st_toks rf_st_toks fi 0) (keeps_evaluate_statement st_keys rf_st_keys fi 0)
+                  (imm_evaluate_statement fi 0) Hon) as Hon1.
+    pose proof (caps_evaluate_statement fi 0 (bumped sR) Hc) as Hc1.
+    rewrite Safety.bind_run.
+    destruct Hland as [(sa & acc & Hona & Hfa & Hla & (stmts & m & st' & Hw)) | (Hline & Htok & Hthen)].
+    - (* an accepted position: follow the checker's walk *)
+      destruct stmts as [|k]; [discriminate Hw|]. cbn [walk_line fst snd] in Hw.
+      assert (HC : C (bumped sR) sa).
+      { destruct Hon as (O1 & O2 & O3), Hona as (A1 & A2 & A3). repeat split; congruence. }
+      assert (Hha : has_next_token sa = (Ok true, bumped sa)).
+      { unfold has_next_token. rewrite Safety.bind_run.
+        assert (Ecl : cur_line sa = cur_line sR /\ loc_idx (loc sa) = loc_idx (loc sR)).
+        { destruct HC as (C1 & C2 & C3 & C4). unfold cur_line. rewrite <- C1, <- C3, <- C4. destruct s; split; reflexivity. }
+        destruct Ecl as [Ec1 Ec2].
+        destruct (peek_cases sa) as [[p Hp2] | [Hp2 _]].
+        - exfalso. unfold peek_next_token, cur_tokens, tokens_for_line, bind, get, modify, ret in Hp2. cbn in Hp2.
+          destruct HC as (C1 & _ & _ & C4). unfold line_there in Hl.
+          replace (loc sa) with (loc sR) in Hp2 by (rewrite <- C4; destruct s; reflexivity).
+          replace (st_toks sa) with (st_toks sR) in Hp2 by (rewrite <- C1; destruct s; reflexivity).
+          destruct (loc_line (loc sR)) as [n|] eqn:El; [|discriminate Hp2].
+          destruct (toks_get n (st_toks sR)) eqn:Etk; [discriminate Hp2 | exact (Hl n eq_refl Etk)].
+        - rewrite Hp2, Ec1, Ec2, Et. reflexivity. }
+      rewrite Hha in Hw.
+      assert (Honb : onprog (bumped sa)) by (destruct sa; exact Hona).
+      assert (Hfnb : functions (bumped sa) = []) by (destruct sa; exact Hfa).
+      destruct (keepA (analyze_statement fa 0) (bumped sa) acc (fn_analyze_statement fa 0) Honb Hfnb) as [Hona1 Hfna1].
+      destruct (analyze_statement fa 0 (bumped sa, acc)) as [[[]|e l|p| |] st1] eqn:Ean;
+        try discriminate Hw;
+        try (destruct (populate_error_location e l (fst st1)) as [l0|]; [destruct (map_location_to_source m l0) as [[? ?]|]|]; discriminate Hw).
+      destruct st1 as [sa1 acc1]. cbn [fst snd] in *.
+      assert (HRb : R (bumped sR) (bumped sa)).
+      { split; [destruct HC as (C1 & C2 & C3 & C4); repeat split; destruct sa; assumption|].
+        split; [exact Hc|]. split; [exact Hf | exact Hfnb]. }
+      assert (Hacc1 : AccAt (loc sa1)).
+      { exists sa1, acc1. split; [exact Hona1|]. split; [exact Hfna1|]. split; [reflexivity|]. exists k, m, st'. exact Hw. }
+      pose proof (tsoundE_statement fi 0 fa 0 (bumped sR) (bumped sa) acc sa1 acc1 HRb Hon Hfr
+                    (fun H => False_ind _ (H eq_refl)) Ean (After_acc _ Hacc1) (fun _ => Hacc1)) as Hst.
+      destruct (evaluate_statement fi 0 (bumped sR)) as [[[]|e l|p| |] s1]; cbn [snd] in *; try exact Hst; try exact I.
+      destruct Hst as (F1 & F2 & F3). apply Htail; try assumption.
+      destruct F3 as [HC1 | HL]; [|exact HL]. left. destruct HC1 as (_ & _ & _ & C4). rewrite C4. exact Hacc1.
+    - (* an ELSE behind a THEN clause that transferred control: the rest of the line is skipped *)
+      destruct fi as [|fi]; [exact I|]. cbn [evaluate_statement]. change (Nat.eqb 0 max_nesting) with false. cbv iota.
+      rewrite body_split, Safety.bind_run.
+      destruct (trace_quiet (bumped sR)) as (s0 & Etr & T1 & T2 & T3 & T4 & T5 & T6 & T7 & T8 & T9). rewrite Etr.
+      assert (Hon0 : onprog s0) by (destruct Hon as (O1 & O2 & O3); repeat split; congruence).
+      rewrite Safety.bind_run.
+      destruct (next_token_cases s0) as [[p Hp0] | [Hl0 Hn0]]; [rewrite Hp0; exact I|]. rewrite Hn0.
+      assert (Et0 : nth_error (cur_line s0) (loc_idx (loc s0)) = Some TElse).
+      { rewrite (cur_line_onprog s0 Hon0), T4. exact Htok. }
+      rewrite Et0. cbn [edispatch].
+      assert (Ehelse : is_else_of_then_clause (advd s0) = (Ok true, advd s0)).
+      { destruct Hline as (n & Hn & Hne).
+        destruct (toks_get n ptoks) as [ts|] eqn:Etg; [|congruence].
+        unfold ThenB, toks_at in Hthen. rewrite Hn, Etg in Hthen.
+        assert (Hn0' : loc_line (loc s0) = Some n) by (rewrite T4; exact Hn).
+        assert (Hi0 : loc_idx (loc s0) = loc_idx (loc (bumped sR))) by (rewrite T4; reflexivity).
+        assert (Ept : toks_get n (st_toks s0) = Some ts) by (destruct Hon0 as (O1 & _ & _); rewrite O1; exact Etg).
+        clear Etr T1 T2 T3 T4 T5 T6 T7 T8 T9 Hn0 Et0 Hl0.
+        unfold is_else_of_then_clause, cur_tokens, tokens_for_line, bind, get, ret.
+        destruct s0 as [tk ? ? [ln ix] ? ? ? ? ? ? ? ? ? ? ? ? ? ? ?]. cbn in Hn0', Hi0, Ept |- *. subst ln. rewrite Ept. cbn.
+        replace (then_before (rev (firstn ix ts))) with true; [reflexivity|]. symmetry. rewrite Hi0. exact Hthen. }
+      rewrite Safety.bind_run, Ehelse.
+      unfold discard_remaining_tokens. rewrite Safety.bind_run.
+      assert (Ect : cur_tokens (advd s0) = (Ok (cur_line s0), advd s0)).
+      { unfold cur_tokens, tokens_for_line. rewrite bind_get. unfold cur_line, line_there in *.
+        replace (loc_line (loc (advd s0))) with (loc_line (loc s0)) by (destruct s0 as [? ? ? [? ?] ? ? ? ? ? ? ? ? ? ? ? ? ? ? ?]; reflexivity).
+        replace (st_toks (advd s0)) with (st_toks s0) by (destruct s0; reflexivity).
+        replace (immediate (advd s0)) with (immediate s0) by (destruct s0; reflexivity).
+        destruct (loc_line (loc s0)) as [k0|]; [|reflexivity].
+        destruct (toks_get k0 (st_toks s0)) eqn:Etk; [reflexivity | exfalso; exact (Hl0 k0 eq_refl Etk)]. }
+      rewrite Ect. unfold modify.
+      set (sd := set_loc _ (advd s0)).
+      assert (Hf0 : functions s0 = []) by congruence.
+      apply Htail.
+      + unfold sd. destruct s0; exact Hon0.
+      + apply (caps_inv_ext (bumped sR)); try (unfold sd; destruct s0; cbn in *; congruence).
+      + unfold sd. destruct s0; exact Hf0.
+      + unfold FramesL, sd. replace (stack (set_loc _ (advd s0))) with (stack (bumped sR)) by (destruct s0; cbn in *; congruence).
+        replace (loops (set_loc _ (advd s0))) with (loops (bumped sR)) by (destruct s0; cbn in *; congruence). exact Hfr.
+      + replace (loc sd) with (mkloc (loc_line (loc s0)) (length (cur_line s0)))
+          by (unfold sd; destruct s0 as [? ? ? [? ?] ? ? ? ? ? ? ? ? ? ? ? ? ? ? ?]; reflexivity).
+        apply (Land_end s0 Hon0 Hf0 Hl0).
+  Qed.
+
+  Lemma continue_soundL fi s : InvL s -> state s = Running ->
+    turn_ok fi s /\ (forall s', continue_evaluating fi s = (Ok tt, s') -> InvL s').
+  Proof.
+    intros HI Hst. unfold turn_ok, continue_evaluating. rewrite Hst. pose proof (turn_soundL fi s HI) as H.
+    destruct (run_next_statement fi s) as [[[]|e l|p| |] s1]; cbn [postprocess]; split; try exact H; try exact I;
+      intros s' E; try discriminate E. injection E as <-. exact H.
+  Qed.
+
+  Theorem run_soundL fi s0 s : InvL s0 -> Reach fi s0 s -> InvL s /\ (state s = Running -> turn_ok fi s).
+  Proof.
+    intros H0 Hr. induction Hr as [|s1 s2 Hr IH Hst E].
+    - split; [exact H0|]. intros Hst. apply (continue_soundL fi s0 H0 Hst).
+    - destruct IH as [HI1 _]. destruct (continue_soundL fi s1 HI1 Hst) as [_ Hn].
+      pose proof (Hn s2 E) as HI2. split; [exact HI2|]. intros Hst2. apply (continue_soundL fi s2 HI2 Hst2).
+  Qed.
+
+  Theorem run_command_soundL fi line s0 :
+    state s0 = Idle -> st_toks s0 = ptoks -> st_keys s0 = pkeys -> caps_inv s0 -> command_of line = Some CRun ->
+    match start_evaluating fi line s0 with
+    | (Ok _, s1) => InvL s1
+    | (Err e _, _) => benign e
+    | _ => True
+    end.
+  Proof.
+    intros Hidle Ht Hk Hc Hcmd. unfold start_evaluating, evaluate_impl.
+    rewrite bind_get, Hidle, set_imm_is_modify, bind_modify, Hcmd. unfold process_command. rewrite !bind_modify.
+    set (sp := set_arrays [] (set_variables [] (set_input None (imm_reset [] s0)))).
+    destruct (run_prefix_facts sp) as (s1 & E & F1 & F2 & F3 & F4 & F5 & F6 & F7 & F8 & F9).
+    rewrite Safety.bind_run, E.
+    assert (HI : InvL s1).
+    { assert (Hon1 : onprog s1).
+      { repeat split; [rewrite F4 | rewrite F5 | exact F6]; unfold sp, imm_reset; destruct (breakpoint s0); destruct s0; assumption. }
+      split; [exact Hon1|].
+      split.
+      { destruct Hc as (K1 & K2 & K3 & K4 & K5 & K6). unfold caps_inv. rewrite F2, F3, F7, F8.
+        replace (variables sp) with (@nil (bytes * value)) by (unfold sp; reflexivity).
+        replace (arrays sp) with (@nil (bytes * arr)) by (unfold sp; reflexivity).
+        cbn. split; [lia|]. split; [lia|]. split; [constructor|]. split; [apply typed_alist_nil|]. split; [constructor | apply arrays_ok_nil]. }
+      split; [exact F1|]. split; [unfold FramesL; rewrite F2, F3; split; constructor|].
+      left. rewrite F9. replace (st_keys sp) with pkeys by (unfold sp, imm_reset; destruct (breakpoint s0); destruct s0; symmetry; assumption).
+      destruct (hd_error pkeys) as [n|] eqn:Eh.
+      - apply G, Hkeys. destruct pkeys as [|n0 ks]; [discriminate Eh|]. injection Eh as ->. left. reflexivity.
+      - apply (AccAt_imm0 fa ptoks pkeys s1 Hon1 F1). }
+    pose proof (turn_soundL fi s1 HI) as H.
+    destruct (run_next_statement fi s1) as [[[]|e l|p| |] s2]; cbn [postprocess]; exact H.
+  Qed.
 End ProgE.
+
+(* ------------------------------------------------------------------ *)
+(* THE THEOREM with ELSE *)
+Definition clean2_program (T : list (N * list token)) : Prop :=
+  forall n ts, toks_get n T = Some ts -> clean2_line ts = true.
+
+Lemma clean2_nodef T : clean2_program T -> nodef_program T.
+Proof.
+  intros H n ts E. pose proof (H n ts E) as Hc. unfold clean2_line, nodef_line in *. rewrite forallb_forall in *.
+  intros t Ht. specialize (Hc t Ht). destruct t; try reflexivity; discriminate Hc.
+Qed.
+
+Theorem program_sound_else fuel fi text :
+  line_bound text < fuel ->
+  forallb (fun msg => negb (is_error_msg msg)) (an_messages (analyze fuel text)) = true ->
+  clean2_program (st_toks (p_prog (pass1_of' text))) ->
+  forall line s0, state s0 = Idle -> st_toks s0 = st_toks (p_prog (pass1_of' text)) ->
+    st_keys s0 = st_keys (p_prog (pass1_of' text)) ->
+    caps_inv s0 -> command_of line = Some CRun ->
+    match start_evaluating fi line s0 with
+    | (Ok _, s1) => forall s, Reach fi s1 s -> state s = Running -> turn_ok fi s
+    | (Err e _, _) => benign e
+    | _ => True
+    end.
+Proof.
+  intros Hfuel Hmsgs Hclean line s0 Hidle Ht Hk Hc Hcmd.
+  pose proof (accepted_lines_nodef fuel text Hfuel Hmsgs (clean2_nodef _ Hclean)) as G.
+  assert (HPP : PP (0 + length (split_lines text)) (pass1_of' text)) by (apply PP_lines, PP_init).
+  destruct HPP as [Hwf _ _ _]. destruct (wf_store _ Hwf) as (_ & Hkeys & _).
+  pose proof (run_command_soundL fuel (st_toks (p_prog (pass1_of' text))) (st_keys (p_prog (pass1_of' text))) Hclean G
+                (fun n Hn => proj1 (Hkeys n) Hn) fi line s0 Hidle Ht Hk Hc Hcmd) as H.
+  destruct (start_evaluating fi line s0) as [[[]|e l|p| |] s1]; try exact H; try exact I.
+  intros s Hr Hst.
+  exact (proj2 (run_soundL fuel (st_toks (p_prog (pass1_of' text))) (st_keys (p_prog (pass1_of' text))) Hclean G
+                  (fun n Hn => proj1 (Hkeys n) Hn) fi s1 s H Hr) Hst).
+Qed.
